@@ -11,6 +11,7 @@ pub mod util;
 
 mod c06_key;
 mod single;
+mod pz_poisonable;
 pub mod c07_dup;
 mod c08_order;
 mod c09_retry;
